@@ -82,6 +82,37 @@ fn running(ctx: &mut Ctx, data: &[u8]) {
     if produced != data { ctx.violation(id, "running", "streaming round trip differs".into(), format!("CKS in={}", hex(data))); }
 }
 
+/// Start values chosen so that the running sums land exactly on, just below and just above the
+/// modulus 65521 after the piece: `a0 + sum(piece) = 65521 + d`, `b0 + len*a0 + weighted(piece) = 65521 + d2 (mod)`.
+fn modulus_boundary(ctx: &mut Ctx) {
+    const M: u64 = 65521;
+    let lens: Vec<usize> = (1..=17).chain([31usize, 32, 33, 63, 64, 65, 100, 255, 256, 257, 5551, 5552, 5553].into_iter()).collect();
+    for &n in &lens {
+        for rep in 0..2 {
+            let piece: Vec<u8> = if rep == 0 { vec![0xFFu8; n] } else { ctx.rng.bytes(n) };
+            let s: u64 = piece.iter().map(|&x| x as u64).sum();
+            let w: u64 = piece.iter().enumerate().map(|(i, &x)| (n - i) as u64 * x as u64).sum();
+            for d in [-2i64, -1, 0, 1, 2] { for d2 in [-1i64, 0, 1] {
+                let a0 = ((M as i64 * 4 + d - (s % M) as i64) as u64) % M;
+                let b0 = ((M as i64 * 4 + d2 - ((n as u64 * a0 + w) % M) as i64) as u64) % M;
+                let init = ((b0 << 16) | a0) as u32;
+                let id = ctx.id();
+                ctx.eval(fnv(&piece) ^ (init as u64) << 8);
+                ctx.count("modulus_boundary");
+                let got = mz_adler32_oxide(init, &piece);
+                ctx.line(&format!("CK id={} kind=adler what=boundary init={} data={} got={}", id, init, hex(&piece), got));
+                let cgot = unsafe { mz_adler32(init as _, piece.as_ptr(), piece.len()) } as u32;
+                if cgot != got { ctx.violation(id, "c_api", format!("mz_adler32 {} != mz_adler32_oxide {} from start {}", cgot, got, init), format!("CKS in={}", hex(&piece))); }
+            } }
+        }
+    }
+    // the same boundaries reached by real prefixes: 0xFF runs bring the low sum to the modulus after 257 bytes
+    for tail in 1..=20usize { for last in [0xEFu8, 0xF0, 0xF1] {
+        let mut d = vec![0xFFu8; 256]; d.extend(std::iter::repeat(0u8).take(tail - 1)); d.push(last);
+        one(ctx, &d, "ff_boundary");
+    } }
+}
+
 pub fn run(ctx: &mut Ctx) {
     if let Some(lines) = ctx.replay_lines.clone() {
         for l in lines { if let Some(rest) = l.strip_prefix("CKS ") { let kv = crate::kv(rest); let d = crate::tx::unhex(&kv["in"]); one(ctx, &d, "replay"); running(ctx, &d); } }
@@ -92,6 +123,7 @@ pub fn run(ctx: &mut Ctx) {
         let d = ctx.rng.bytes(n); one(ctx, &d, "random");
         let f = vec![0xFFu8; n]; one(ctx, &f, "allff");
     }
+    modulus_boundary(ctx);
     let big = if ctx.quick() { 300_000 } else { 3_000_000 };
     let f = vec![0xFFu8; big]; one(ctx, &f, "allff_big");
     let d = ctx.rng.bytes(big); one(ctx, &d, "random_big");
